@@ -47,7 +47,18 @@ def fit_case(draw):
         q=draw(strat.quat()), t=draw(strat.vec(1.0)), tscale=draw(big),
         off=draw(strat.vec(1.0)), oscale=draw(big),
         q2=draw(strat.quat()), t2=draw(strat.vec(50.0)),
+        # how the caller hands the coordinates over (nested lists, tuples, numpy arrays) - and the same
+        # objects are used for a second placement afterwards
+        argtype=draw(st.sampled_from(["list", "list", "tuple", "ndarray", "ndarray"])),
     )  # fmt: skip
+
+
+def _as(argtype, arr):
+    if argtype == "ndarray":
+        return np.array(arr, dtype=float)
+    if argtype == "tuple":
+        return tuple(tuple(float(v) for v in row) for row in np.atleast_2d(arr)) if np.ndim(arr) > 1 else tuple(float(v) for v in arr)
+    return np.asarray(arr, dtype=float).tolist()
 
 
 def fit_points(case):
@@ -71,9 +82,21 @@ def check_fit(case):
     R = _R(case["q"])
     t = np.array(case["t"]) * case["tscale"]
     Q = (R @ P.T).T + t
-    got = np.array(quatfit.find_coordinates(len(P), Q.tolist(), P.tolist(), probe.tolist()))
+    at = case.get("argtype", "list")
+    a_ref, a_def, a_probe = _as(at, Q), _as(at, P), _as(at, probe)
+    got = np.array(quatfit.find_coordinates(len(P), a_ref, a_def, a_probe))
     exp = R @ probe + t
     err = float(np.linalg.norm(got - exp))
+    # the caller's coordinates belong to the caller: unchanged by the call, and a second placement from
+    # the very same objects gives the same atom
+    if not (np.array_equal(np.asarray(a_ref, float), Q) and np.array_equal(np.asarray(a_def, float), P)
+            and np.array_equal(np.asarray(a_probe, float), probe)):
+        res.bad("C15:fit:arguments-modified", f"find_coordinates changed the coordinates it was given ({at} arguments)")
+    else:
+        again = np.array(quatfit.find_coordinates(len(P), a_ref, a_def, a_probe))
+        if float(np.linalg.norm(again - got)) > 1e-9:
+            res.bad("C15:fit:second-placement", f"a second placement from the same {at} arguments lands {np.linalg.norm(again - got):.3g} A away")
+    res.label(f"args={at}")
     mirror = None
     if err > 1e-6:
         # diagnose a mirror image: reflect through the plane of the first three points
@@ -145,9 +168,21 @@ def check_fit_special(case):
     t = np.array(case["t"])
     probe = np.array(case["probe"]) + np.array(case["off"])
     Q = (R @ P.T).T + t
-    got = np.array(quatfit.find_coordinates(len(P), Q.tolist(), P.tolist(), probe.tolist()))
+    at = case.get("argtype", "list")
+    a_ref, a_def, a_probe = _as(at, Q), _as(at, P), _as(at, probe)
+    got = np.array(quatfit.find_coordinates(len(P), a_ref, a_def, a_probe))
     exp = R @ probe + t
     err = float(np.linalg.norm(got - exp))
+    # the caller's coordinates belong to the caller: unchanged by the call, and a second placement from
+    # the very same objects gives the same atom
+    if not (np.array_equal(np.asarray(a_ref, float), Q) and np.array_equal(np.asarray(a_def, float), P)
+            and np.array_equal(np.asarray(a_probe, float), probe)):
+        res.bad("C15:fit:arguments-modified", f"find_coordinates changed the coordinates it was given ({at} arguments)")
+    else:
+        again = np.array(quatfit.find_coordinates(len(P), a_ref, a_def, a_probe))
+        if float(np.linalg.norm(again - got)) > 1e-9:
+            res.bad("C15:fit:second-placement", f"a second placement from the same {at} arguments lands {np.linalg.norm(again - got):.3g} A away")
+    res.label(f"args={at}")
     planar = np.linalg.matrix_rank(P - P.mean(0), tol=1e-6) < 3
     if err > 1e-6:
         ok_mirror = False
@@ -249,6 +284,9 @@ def torsion_case(draw):
                               st.sampled_from([0.0, 180.0, -180.0, 90.0]))),
         # the debumper turns in small steps: a request RELATIVE to the present angle
         rel=draw(st.sampled_from([None, None, 5.0, -5.0, 1.0, -0.5, 0.1])),
+        # further requests for the same torsion afterwards (the debumper tries angle after angle)
+        then=draw(st.lists(st.one_of(st.sampled_from([0.0, 0.0, 360.0, -360.0, 180.0, -180.0, 60.0, -60.0]), strat.fl(-180.0, 180.0)),
+                           min_size=0, max_size=3)),
     )  # fmt: skip
 
 
@@ -334,8 +372,29 @@ def check_torsion(case):
         D1 = np.linalg.norm(M1[:, None] - M1[None], axis=-1)
         if np.abs(D0 - D1).max() > 1e-9 * max(1.0, D0.max()):
             res.bad("C15:torsion:not-rigid", f"{base} {names[k]}: moved set deformed")
+    # the same torsion is set again and again: every request counts, whatever the angle it starts from
+    prev = after
+    for step, tgt in enumerate(case.get("then", []), 2):
+        deb.set_dihedral_angle(residue, k, tgt)
+        cur = {a.name: np.array(a.coords) for a in residue.atoms}
+        got = geom.dihedral(*(cur[x] for x in quad))
+        if geom.angdiff(got, tgt) > 0.05:
+            res.bad("C15:torsion:sequence-angle", f"{base} {names[k]}: request #{step} for {tgt} (coming from "
+                    f"{geom.dihedral(*(prev[x] for x in quad)):.4f}) left the torsion at {got:.4f}")  # fmt: skip
+            break
+        if geom.angdiff(residue.dihedrals[k], got) > 0.05:
+            res.bad("C15:torsion:recorded", f"{base} {names[k]}: recorded {residue.dihedrals[k]} but measured {got} after request #{step}")
+            break
+        for n in cur:
+            for ax in quad[1:3]:
+                d0 = np.linalg.norm(before[n] - before[ax])
+                d1 = np.linalg.norm(cur[n] - cur[ax])
+                if abs(d0 - d1) > 1e-8 * max(1.0, d0):
+                    res.bad("C15:torsion:axis-distance", f"{base} {names[k]}: |{n}-{ax}| {d0:.6f} -> {d1:.6f} after request #{step}")
+                    break
+        prev = cur
     res.nontrivial = geom.angdiff(old, case["target"]) > 1.0 and len(moved) >= 1
-    res.label(f"res={base}", f"chi#{heavy_idx.index(k) + 1}",
+    res.label(f"res={base}", f"chi#{heavy_idx.index(k) + 1}", f"requests={1 + len(case.get('then', []))}",
               "terminal" if (residue.is_n_term or residue.is_c_term) else "internal")  # fmt: skip
     return res
 
